@@ -79,6 +79,10 @@ PROPS = {
             'technique': 'Verus: per-type ghost encoder/decoder generated from an RFC schema (contracts/schema.py); the real parse/write_to/len bodies are proved against them; Kani for the IANA type-code table',
             'text': 'proof for all inputs for the straight-line types: parse reads exactly the RFC layout (wf_dec), write_to emits exactly the RFC encoding (wf_enc), len equals its size; loop/union types (TXT OPT SVCB NSEC IPSECKEY NSAP) are currently covered for safety only',
             'note': VERUS_NOTE + '; ' + KANI_NOTE},
+    'C12': {'verus': True, 'kani': [],
+            'technique': 'Verus contracts on Display for Label and Display for CharacterString with std::fmt::Formatter modelled by one ghost predicate ("the sink failed"); panic-freedom of the parse-produced observers that are inside Verus',
+            'text': 'proof for all label / string contents: fmt returns Err only if the formatter\'s sink returned Err and never panics (from_utf8 failure falls back to a lossy rendering); this is what to_string() / format!() and the Debug impls built on them rely on. Display for Name, the Debug impls (format_args!), TXT::attributes / long_attributes and String::try_from are outside Verus: they are listed as unverified observers (they only propagate the results of the two verified functions or use Result-returning std conversions)',
+            'note': VERUS_NOTE + '; Formatter::write_str, str::from_utf8, String::from_utf8_lossy are assume_specification items; into_owned / clone / Hash / Eq are derive- or iterator-based and not verified here'},
     'C18': {'verus': True, 'kani': ['type_table_all_codes', 'type_mnemonics', 'class_table_all_codes', 'qclass_table_all_codes',
                                     'qtype_table_all_codes', 'match_qclass_matrix', 'match_qtype_matrix'],
             'technique': 'Kani/CBMC loop-free over all 65536 codes and the full match matrix; Verus contracts (from_spec/try_from_spec tables) on the conversions of dns/mod.rs',
